@@ -35,6 +35,10 @@ THEOREMS = [
     "Mpc.C18_resume_eq",
     "Mpc.C18_round3_output_wf",
     "Mpc.C18_sha2pc_correct_given_circuit_partial",
+    "Mpc.C18_hist_frame",
+    "Mpc.C18_hist_isolation",
+    "Mpc.C18_hist_complete_session",
+    "Mpc.C18_hist_correct_partial",
     "Mpc.C01_decode",
     "Mpc.C06_co_delivers",
 ]
@@ -60,6 +64,17 @@ NEED_PROTO = (
        "mismatch_decode-r2-other-curve_err", "mismatch_decode-gs-other-curve_err", "mismatch_decode-es-other-curve_err",
        "mismatch_round2-msg1-other-curve_err", "mismatch_round4-msg3-other-curve-forged-sid_err",
        "real_payload_R1", "real_payload_R2", "real_payload_R3", "real_payload_GS", "real_payload_ES"])
+# histories of several sessions in one process: every class of the generator must occur on every run
+NEED_HIST = (
+    ["hist_k2", "hist_k3", "hist_k4", "hist_curves_same", "hist_curves_mixed"]
+    + ["hist_sessions_" + c for c in CURVES]
+    + ["hist_shape_" + n for n in ("sequential", "round-robin", "round-robin-reversed", "garbler-batch", "random-merge")]
+    + ["hist_e2_msg1-memory", "hist_e2_msg1-bytes"]
+    + ["hist_g3_session-%s_msg2-%s" % (a, b) for a in ("memory", "bytes") for b in ("memory", "bytes")]
+    + ["hist_e4_session-memory", "hist_e4_session-bytes"]
+    # a round-3 message consumed (in memory / re-encoded at that moment) AFTER a later round 3 of another session
+    + ["hist_e4_msg3-memory_after-foreign-round3", "hist_e4_msg3-bytes_after-foreign-round3",
+       "hist_e4_msg3-memory_own-round3-latest", "hist_e4_msg3-bytes_own-round3-latest"])
 
 
 def const_exprs(*srcs):
@@ -162,7 +177,7 @@ def need(ctx, what, names):
 
 def distinct(ctx, ops):
     for line in open(ops, errors="replace"):
-        if line.startswith(("dec ", "ceval ", "encR1 ", "encGS ")):
+        if line.startswith(("dec ", "ceval ", "encR1 ", "encGS ", "hist ")):
             ctx.distinct.add(hashlib.sha1(line.encode()).digest())
 
 
@@ -183,6 +198,11 @@ def run(ctx):
         for s in (seeds if quick else seeds[:2]):
             jobs.append(("proto", 2 if quick else 6, s, "", [],
                          "real payloads of full sessions, all curves (seed %d)" % s))
+        # 2b. HISTORIES: 2..4 sessions (same / different curves) in one process, rounds interleaved in every
+        # kind of order, inputs consumed in memory and through bytes, the whole process observed after every step
+        for s in ((ctx.seed, ctx.seed + 500) if quick else (ctx.seed, ctx.seed + 500, ctx.seed + 1000, ctx.seed + 1500)):
+            jobs.append(("hist", 8 if quick else 24, s, "", [],
+                         "histories of several sessions in one process: state after every step = Proc.run (seed %d)" % s))
         # 3. codec: structured payloads and mutation fuzz of every encoded message, one shard per curve
         for s in seeds:
             for cv in CURVES:
@@ -216,10 +236,11 @@ def run(ctx):
         ctx.oblige("no accepted non-canonical input, no padded/extended/short message accepted, no round crash",
                    not seen, "occurred: %s" % seen)
         need(ctx, "proto", NEED_PROTO)
+        need(ctx, "history", NEED_HIST)
         if ctx.widen:
             # widened search for a concrete failing input
             for s in range(ctx.seed + 7000, ctx.seed + 7003):
-                for mode, n in (("codec", 250), ("proto", 3)):
+                for mode, n in (("codec", 250), ("proto", 3), ("hist", 16)):
                     ops, out, meta = ctx.run_hx(mode, n, seed=s, tag="-widen", extra_args=repo, timeout=2400)
                     ctx.absorb_meta(meta, prefix="widen_")
                 if ctx.fails:
@@ -234,7 +255,13 @@ def run(ctx):
         "/ random / swap, chunk ending inside or after the last field) + seeded random 1-2 step mutations; every "
         "accepted mutated message/state is continued into the next round on the two small curves. proto: per curve "
         "sessions on 6 input shapes, all 5 single restarts + all-at-once + random subsets, cross-session and "
-        "cross-curve feeding. distinct = distinct dec/enc/ceval op lines")
+        "cross-curve feeding. hist: histories of k = 2..4 sessions in ONE process (same curve / different curves, all "
+        "four curves), 5 interleaving shapes (sequential, round-robin = all round 1, all round 2, ..., the same reversed, "
+        "batching garbler, uniformly random merges), each step consuming each input in memory or through bytes encoded at "
+        "that moment (seeded), round 4 repeated at later points and once more for every session after all other steps; "
+        "after EVERY step the deep hash of every live message/session object of every session is compared with its "
+        "production-time value, with the isolated run of the same session and (correspondence) with Proc.run of the "
+        "model. distinct = distinct dec/enc/ceval/hist op lines")
     ctx.assumptions += [
         "point decompression (elliptic.UnmarshalCompressed) is an abstract function in the theorems (round-2 canonicity "
         "assumes it returns the requested parity); the driver instantiates it with y^2 = x^3 - 3x + b over the four NIST "
@@ -243,6 +270,9 @@ def run(ctx):
         "to implement one); deriveMask and AES are arbitrary functions",
         "the round functions are tied to the Go code by the oracle runs and by source facts only (not byte-compared: "
         "that would need the curve arithmetic and SHA-256 in Lean); the encoders/decoders are byte-compared",
+        "histories: the model's rounds are PURE functions, so frame/isolation hold in the model by construction; that "
+        "the real process behaves so is decided on the sampled histories (single goroutine; the values a session "
+        "produces alone are the model's round-function table, compared as deep hashes of all reachable fields)",
         "that the embedded 127806-gate circuit computes SHA-256(a xor b) is VALIDATED by evaluation (Go Compute, harness "
         "evaluator, Lean Circuit.compute vs crypto/sha256), not proved",
         "encoders: big integers wider than the curve's field make writeFixedBigInt panic; excluded by the well-formedness "
@@ -257,9 +287,14 @@ def run(ctx):
         "length prefixes only in minimal form); rounds 2/3/4 never crash on any state/message, off-curve stored points are "
         "errors; a round run from the bytes of state and message equals the round run from the originals (every boundary, "
         "either party); foreign session ids and curve names are rejected; the evaluator outputs circuit(a,b) (composition "
-        "of C01_decode and C06_co_delivers). Tie: real Encode*/Decode* vs the Lean model on real and mutated payloads of "
+        "of C01_decode and C06_co_delivers); HISTORIES: in a process holding several sessions a step changes only the "
+        "slots it produces (frame), the state of a session after any interleaving is what its own steps produce "
+        "(isolation, induction over the schedule), every complete session inside any history ends with the values of its "
+        "isolated run and the circuit's function of its own inputs, inputs consumed in memory or through bytes. Tie: real Encode*/Decode* vs the Lean model on real and mutated payloads of "
         "P-224/256/384/521, outcome ok(fields, re-encoding)|err|panic compared line by line; source facts require the five "
         "repairs 0e7671a/68f93f2/d9a1171/2eb87d5/217fb4c. Oracle on the real code: digest = sha256(a xor b); restart through "
         "Encode/Decode at every boundary gives byte-identical downstream messages and the same digest; decoders and "
         "continued rounds never panic; foreign session/curve rejected; NO accepted input differs from the re-encoding of "
-        "what it decodes to.")
+        "what it decodes to; in histories of 2..4 interleaved sessions no returned message/session object ever changes "
+        "after its production, every step gives the isolated run's value, every digest (also of messages consumed after "
+        "later rounds of other sessions, in memory and re-encoded) is sha256(a xor b) = Lean Circuit.compute.")
